@@ -2,42 +2,42 @@
 // Every function hammers one shared _Atomic object and appends what it observed to a per-thread log.
 #include <stdatomic.h>
 
-#define DEFINE(T, S)                                                                        \
-  void w_addassign_##S(_Atomic T *p, long n, unsigned long *log) {                          \
+#define DEFINE(T, S, AT)                                                                       \
+  void w_addassign_##S(AT *p, long n, unsigned long *log) {                          \
     for (long i = 0; i < n; i++) log[i] = (*p += 1);                                        \
   }                                                                                         \
-  void w_preinc_##S(_Atomic T *p, long n, unsigned long *log) {                             \
+  void w_preinc_##S(AT *p, long n, unsigned long *log) {                             \
     for (long i = 0; i < n; i++) log[i] = ++*p;                                             \
   }                                                                                         \
-  void w_postinc_##S(_Atomic T *p, long n, unsigned long *log) {                            \
+  void w_postinc_##S(AT *p, long n, unsigned long *log) {                            \
     for (long i = 0; i < n; i++) log[i] = (*p)++;                                           \
   }                                                                                         \
-  void w_subassign_##S(_Atomic T *p, long n, unsigned long *log) {                          \
+  void w_subassign_##S(AT *p, long n, unsigned long *log) {                          \
     for (long i = 0; i < n; i++) log[i] = (*p -= 1);                                        \
   }                                                                                         \
-  void w_fetchadd_##S(_Atomic T *p, long n, unsigned long *log) {                           \
+  void w_fetchadd_##S(AT *p, long n, unsigned long *log) {                           \
     for (long i = 0; i < n; i++) log[i] = atomic_fetch_add(p, 1);                           \
   }                                                                                         \
-  void w_fetchsub_##S(_Atomic T *p, long n, unsigned long *log) {                           \
+  void w_fetchsub_##S(AT *p, long n, unsigned long *log) {                           \
     for (long i = 0; i < n; i++) log[i] = atomic_fetch_sub(p, 1);                           \
   }                                                                                         \
-  void w_mulodd_##S(_Atomic T *p, long n, unsigned long *log) {                             \
+  void w_mulodd_##S(AT *p, long n, unsigned long *log) {                             \
     for (long i = 0; i < n; i++) log[i] = (*p *= 3);                                        \
   }                                                                                         \
-  void w_xor_##S(_Atomic T *p, long n, unsigned long *log, unsigned long mask) {            \
+  void w_xor_##S(AT *p, long n, unsigned long *log, unsigned long mask) {            \
     for (long i = 0; i < n; i++) log[i] = (*p ^= (T)mask);                                  \
   }                                                                                         \
-  void w_orand_##S(_Atomic T *p, long n, unsigned long *log, unsigned long bit) {           \
+  void w_orand_##S(AT *p, long n, unsigned long *log, unsigned long bit) {           \
     for (long i = 0; i < n; i++) {                                                          \
       log[2 * i] = atomic_fetch_or(p, (T)bit);                                              \
       log[2 * i + 1] = atomic_fetch_and(p, (T)~bit);                                        \
     }                                                                                       \
   }                                                                                         \
-  void w_exchange_##S(_Atomic T *p, long n, unsigned long *log, unsigned long first) {      \
+  void w_exchange_##S(AT *p, long n, unsigned long *log, unsigned long first) {      \
     for (long i = 0; i < n; i++) log[i] = atomic_exchange(p, (T)(first + i));               \
   }                                                                                         \
   /* explicit compare-exchange loop: log[3k] = expected passed, log[3k+1] = value found on failure / new on success, log[3k+2] = success */ \
-  long w_casloop_##S(_Atomic T *p, long n, unsigned long *log, long cap) {                  \
+  long w_casloop_##S(AT *p, long n, unsigned long *log, long cap) {                  \
     long k = 0;                                                                             \
     T old = atomic_load(p);                                                                 \
     for (long i = 0; i < n; i++) {                                                          \
@@ -51,16 +51,18 @@
     }                                                                                       \
     return k;                                                                               \
   }                                                                                         \
-  void w_shift_##S(_Atomic T *p, long n, unsigned long *log) {                              \
+  void w_shift_##S(AT *p, long n, unsigned long *log) {                              \
     for (long i = 0; i < n; i++) { log[2 * i] = (*p <<= 1); log[2 * i + 1] = (*p |= 1); }   \
   }
 
-DEFINE(unsigned char, u8)
-DEFINE(unsigned short, u16)
-DEFINE(unsigned int, u32)
-DEFINE(unsigned long, u64)
-DEFINE(signed char, i8)
-DEFINE(long, i64)
+// every spelling of an atomic type is used for one width variant
+typedef _Atomic(long) td_atomic_long;
+DEFINE(unsigned char, u8, _Atomic unsigned char)
+DEFINE(unsigned short, u16, _Atomic(unsigned short))
+DEFINE(unsigned int, u32, unsigned int _Atomic)
+DEFINE(unsigned long, u64, atomic_ulong)
+DEFINE(signed char, i8, _Atomic(signed char))
+DEFINE(long, i64, td_atomic_long)
 
 // the object itself in static storage, defined by the compiler under test
 _Atomic unsigned char s_u8;
